@@ -229,6 +229,7 @@ type kase struct {
 	Pad     int // 0 none, 1 defining template above 4096 bytes, 2 calling template above 4096 bytes
 	Hist    int // hEach or hSeq
 	Use     int // uPrint … uTwo
+	Mark    bool // second version of the macro (families replace, partial): the body's text carries a mark; not part of the key
 }
 
 func (c *kase) key() string {
@@ -272,6 +273,14 @@ func (c *kase) decl() string {
 	return c.Name + "(" + strings.Join(ps, ", ") + ")"
 }
 
+// mark is literal text at the start of the body of the macro's second version
+func (c *kase) mark() string {
+	if c.Mark {
+		return "v2:"
+	}
+	return ""
+}
+
 func (c *kase) first() string {
 	if c.N > 0 {
 		return "p0"
@@ -281,7 +290,7 @@ func (c *kase) first() string {
 
 func (c *kase) bodySrc() string {
 	var b strings.Builder
-	b.WriteString("[")
+	b.WriteString("[" + c.mark())
 	switch c.Body {
 	case bControl:
 		for i := 0; i < c.N; i++ {
@@ -573,7 +582,7 @@ func (c *kase) callOutputWith(alt bool) string {
 		first = vals[0]
 	}
 	var b strings.Builder
-	b.WriteString("[")
+	b.WriteString("[" + c.mark())
 	switch c.Body {
 	case bControl:
 		for _, v := range vals {
@@ -852,6 +861,9 @@ type family struct {
 	minArgc         int
 	hist            int
 	uses            []int // nil: the call is printed
+	kind            int   // kPlain, kReplace, kPartial (replace.go)
+	changes         []int // kReplace, kPartial: how the macro's second version differs from the first
+	mechs           []int // kReplace: how the library is replaced
 }
 
 func ints(n int) []int {
@@ -874,6 +886,13 @@ func families(thorough bool) []family {
 			// the value of the call held and used several times (≥ 1 argument)
 			{name: "held", names: f, maxN: 3, defSt: []int{0, 1}, spacings: []int{0}, argSt: ints(nArgStyles), bodies: ints(nBodies), sites: ints(nSites), pads: []int{0, 1, 2}, minArgc: 1, uses: heldUses},
 			{name: "held-seq", names: f, maxN: 3, defSt: []int{0}, spacings: []int{0}, argSt: []int{asStr, asVar, asPar}, bodies: ints(nBodies), sites: ints(nSites), pads: []int{0, 2}, minArgc: 1, hist: hSeq, uses: heldUses},
+			// the macro library replaced between renders (replace.go)
+			{name: "replace", kind: kReplace, names: f, maxN: 3, defSt: []int{0, 1}, spacings: []int{0}, argSt: []int{asStr, asPar}, bodies: ints(nBodies), sites: ints(nSites), pads: []int{0}, changes: ints(nChanges), mechs: ints(nMechs)},
+			{name: "replace-pad", kind: kReplace, names: f, maxN: 2, defSt: []int{0}, spacings: []int{0}, argSt: []int{asStr, asVar}, bodies: []int{bPrint, bSelfSibling, bRelInc}, sites: ints(nSites), pads: []int{1, 2}, changes: ints(nChanges), mechs: ints(nMechs)},
+			{name: "replace-held", kind: kReplace, names: f, maxN: 2, defSt: []int{0}, spacings: []int{0}, argSt: []int{asStr, asPar}, bodies: []int{bPrint, bSelfSibling}, sites: ints(nSites), pads: []int{0}, minArgc: 1, uses: heldUses, changes: ints(nChanges), mechs: []int{mReg, mReload}},
+			// a shared partial calls the macro its includer supplies; two includers, two macros (replace.go)
+			{name: "partial", kind: kPartial, names: f, maxN: 3, defSt: []int{0, 1}, spacings: []int{0}, argSt: ints(nArgStyles), bodies: ints(nBodies), sites: ints(nSites), pads: []int{0, 1, 2}, changes: ints(nChanges)},
+			{name: "partial-held", kind: kPartial, names: f, maxN: 2, defSt: []int{0}, spacings: []int{0}, argSt: []int{asStr, asPar}, bodies: ints(nBodies), sites: ints(nSites), pads: []int{0}, minArgc: 1, uses: heldUses, changes: ints(nChanges)},
 		}
 	}
 	return []family{
@@ -892,6 +911,11 @@ func families(thorough bool) []family {
 		{name: "held", names: f, maxN: 3, defSt: []int{0}, spacings: []int{0}, argSt: []int{asStr, asPar}, bodies: ints(nBodies), sites: ints(nSites), pads: []int{0, 2}, minArgc: 1, uses: heldUses},
 		// … and with all ways of reaching the macro on one engine
 		{name: "held-seq", names: f, maxN: 3, defSt: []int{0}, spacings: []int{0}, argSt: []int{asStr}, bodies: []int{bPrint, bSelfSibling}, sites: ints(nSites), pads: []int{0}, minArgc: 1, hist: hSeq, uses: heldUses},
+		// the macro library replaced between renders while the calling templates stay (replace.go):
+		// 5 kinds of second version × 4 ways of replacing, every importing way, all sites
+		{name: "replace", kind: kReplace, names: f, maxN: 2, defSt: []int{0}, spacings: []int{0}, argSt: []int{asStr, asPar}, bodies: []int{bPrint, bSelfSibling}, sites: ints(nSites), pads: []int{0}, changes: ints(nChanges), mechs: ints(nMechs)},
+		// a shared partial calls the macro its includer supplies; two includers, two macros (replace.go)
+		{name: "partial", kind: kPartial, names: f, maxN: 2, defSt: []int{0}, spacings: []int{0}, argSt: []int{asStr, asPar}, bodies: ints(nBodies), sites: ints(nSites), pads: []int{0}, changes: ints(nChanges)},
 	}
 }
 
@@ -937,6 +961,10 @@ func run(t *vlib.T) {
 		f := f
 		f.each(func(c kase) {
 			if t.Stopped() {
+				return
+			}
+			if f.kind != kPlain {
+				runVersions(t, &f, c, seen)
 				return
 			}
 			k := c.key()
